@@ -52,6 +52,8 @@ pub struct Prog {
     pub raw_code_idx: u8,
     pub raw_id: u32,
     pub raw_with_uri: bool,
+    /// use a target without authority ("/printers/x"): still a valid http::Uri
+    pub hostless: bool,
 }
 
 fn text() -> BoxedStrategy<String> {
@@ -95,7 +97,7 @@ pub fn prog() -> BoxedStrategy<Prog> {
             let ncalls = if entry >= 8 { gen::count(0, 0, 0) } else if entry == 1 { prop_oneof![2 => Just(1usize), 3 => 0..6usize].boxed() } else { (0..6usize).boxed() };
             (Just((entry, direct, via_from, uri, job_id, payload, raw)), ncalls.prop_flat_map(move |n| proptest::collection::vec(call_for(entry), n)))
         })
-        .prop_map(|((entry, direct, via_from, uri, job_id, payload, raw), calls)| Prog { entry, direct, via_from, uri, job_id, payload, calls, raw_version: raw.0, raw_code_idx: raw.1, raw_id: raw.2, raw_with_uri: raw.3 })
+        .prop_map(|((entry, direct, via_from, uri, job_id, payload, raw), calls)| Prog { entry, direct, via_from, uri, job_id, payload, calls, raw_version: raw.0, raw_code_idx: raw.1, raw_id: raw.2, raw_with_uri: raw.3, hostless: raw.0 % 16 == 5 })
         .boxed()
 }
 
@@ -163,8 +165,16 @@ fn finish<T: IppOperation>(op: T, via_from: bool) -> IppRequestResponse {
 }
 
 /// Run the program against the library. Returns None when http::Uri rejects the target string.
+pub fn target_text(p: &Prog) -> String {
+    if p.hostless {
+        if p.uri.path.is_empty() { "/".to_string() } else { p.uri.path.clone() }
+    } else {
+        p.uri.text()
+    }
+}
+
 pub fn execute(p: &Prog) -> Option<IppRequestResponse> {
-    let uri: Uri = p.uri.text().parse().ok()?;
+    let uri: Uri = target_text(p).parse().ok()?;
     let d = describe(p);
     let ia = |n: &str, v: &CValue| IppAttribute::new(n, to_ipp(v));
     Some(match (p.entry, p.direct) {
@@ -307,7 +317,7 @@ pub fn prog_json(p: &Prog) -> Value {
         })
         .collect();
     json!({"entry": ENTRIES[p.entry], "entry_idx": p.entry, "direct": p.direct, "via_from": p.via_from, "uri": p.uri.to_json(), "job_id": p.job_id, "payload": hex(&p.payload), "calls": calls,
-        "raw": [p.raw_version, p.raw_code_idx, p.raw_id, p.raw_with_uri]})
+        "raw": [p.raw_version, p.raw_code_idx, p.raw_id, p.raw_with_uri], "hostless": p.hostless})
 }
 
 pub fn prog_from_json(v: &Value) -> Option<Prog> {
@@ -343,6 +353,7 @@ pub fn prog_from_json(v: &Value) -> Option<Prog> {
         raw_code_idx: raw.get(1)?.as_u64()? as u8,
         raw_id: raw.get(2)?.as_u64()? as u32,
         raw_with_uri: raw.get(3)?.as_bool()?,
+        hostless: v.get("hostless").and_then(|b| b.as_bool()).unwrap_or(false),
     })
 }
 
@@ -488,7 +499,13 @@ pub fn judge_c10(p: &Prog, pr: &Probe) -> Judge {
         (false, None) => {}
         (true, Some(CValue::Str(0x45, b))) => {
             let s = String::from_utf8_lossy(&b).to_string();
-            if let Err(f) = check_canonical(&p.uri, &s) {
+            if p.hostless {
+                // a target without authority has no canonical ipp:// form; it must still be carried
+                pr.label("host-less target");
+                if !s.ends_with(target_text(p).as_str()) {
+                    return fail("printer-uri", format!("host-less target {:?} carried as printer-uri {s:?}", target_text(p)));
+                }
+            } else if let Err(f) = check_canonical(&p.uri, &s) {
                 return fail("printer-uri", f.msg);
             }
         }
@@ -552,6 +569,8 @@ pub struct C09Case {
 fn c09_add_name() -> BoxedStrategy<String> {
     prop_oneof![
         4 => proptest::sample::select(vec!["printer-uri", "job-uri", "job-id"]).prop_map(|s| s.to_string()),
+        // names that differ from the mandatory ones only in letter case are OTHER attributes
+        2 => proptest::sample::select(vec!["Job-Id", "Attributes-Charset", "Printer-URI", "JOB-URI", "attributes-Natural-Language", "Printer-Uri"]).prop_map(|s| s.to_string()),
         3 => proptest::sample::select(vec!["requesting-user-name", "job-name", "document-format", "compression", "attributes-charset", "attributes-natural-language", "a", "zzz", "copies"]).prop_map(|s| s.to_string()),
         3 => proptest::collection::vec(prop_oneof![b'a'..=b'z', Just(b'-')], 1..10).prop_map(|v| String::from_utf8(v).unwrap()),
     ]
@@ -690,7 +709,7 @@ pub struct History {
 
 fn history() -> BoxedStrategy<History> {
     let start = prop_oneof![2 => Just(Start::Empty), 2 => (0u8..3).prop_map(Start::Constructor), 3 => gen::w_msg_small().prop_map(Start::Parsed)];
-    let name = proptest::sample::select(vec!["a", "b", "c", "job-id", "copies", "printer-uri", "x-y"]).prop_map(|s| s.to_string());
+    let name = proptest::sample::select(vec!["a", "b", "c", "job-id", "copies", "printer-uri", "x-y", "A", "Job-Id", "COPIES", "\u{e9}", "\u{c9}"]).prop_map(|s| s.to_string());
     (start, proptest::collection::vec((gen::group_tag(), name, gen::m_value(1, false)), 0..40)).prop_map(|(start, ops)| History { start, ops }).boxed()
 }
 
